@@ -11,7 +11,9 @@
 EXTENDS SemLevel
 
 TagOf(v) == CASE v.k = "null" -> "null" [] v.k = "bool" -> "boolean" [] v.k = "num" -> "number" [] v.k = "str" -> "string"
-              [] v.k = "arr" -> "list" [] v.k = "obj" -> "mapping" [] v.k = "absent" -> "optionalProp" [] OTHER -> "other"
+              [] v.k = "arr" -> "list" [] v.k = "obj" -> "mapping" [] v.k = "absent" -> "optionalProp"
+              [] v.k = "big" -> "bigint" [] v.k = "date" -> "date" [] v.k = "ta" -> "typedArray" [] v.k = "map" -> "map" [] v.k = "set" -> "set"
+              [] OTHER -> "other"
 
 AtomDef(tab, i) == tab[CHOOSE j \in DOMAIN tab : tab[j].i = i].def
 HasAtom(tab, i) == \E j \in DOMAIN tab : tab[j].i = i
@@ -33,12 +35,23 @@ ListAtomMem(v, def, atoms, open) ==
   /\ \A j \in DOMAIN def.prefix : DMem(v.es[j], def.prefix[j], atoms, open)
   /\ \A j \in (Len(def.prefix) + 1)..Len(v.es) : DMem(v.es[j], def.items, atoms, open)
 
+\* a Map atom is a mapping atom without declared keys whose "index signature" is <key type, value type>: every entry is in both
+\* (a Map has no undeclared keys to be open about); a Set atom is a list atom without prefix
+MapKVAtomMem(v, def, atoms, open) ==
+  /\ v.k = "map"
+  /\ \A j \in DOMAIN v.es : def.ix # <<>> /\ DMem(v.es[j].mk, def.ix[1].kt, atoms, open) /\ DMem(v.es[j].mv, def.ix[1].vt, atoms, open)
+SetAtomMem(v, def, atoms, open) ==
+  /\ v.k = "set"
+  /\ \A j \in DOMAIN v.es : DMem(v.es[j], def.items, atoms, open)
+
 EvalBddD(b, v, kind, atoms, open) ==
   IF b.t = "T" THEN TRUE ELSE IF b.t = "F" THEN FALSE
-  ELSE LET tab == IF kind = "mapping" THEN atoms.mapping ELSE atoms.list
+  ELSE LET tab == CASE kind = "mapping" -> atoms.mapping [] kind = "list" -> atoms.list [] kind = "map" -> atoms.map [] OTHER -> atoms.set
            here == IF ~HasAtom(tab, b.a) THEN FALSE
-                   ELSE IF kind = "mapping" THEN MapAtomMem(v, AtomDef(tab, b.a), atoms, open)
-                   ELSE ListAtomMem(v, AtomDef(tab, b.a), atoms, open)
+                   ELSE CASE kind = "mapping" -> MapAtomMem(v, AtomDef(tab, b.a), atoms, open)
+                          [] kind = "list" -> ListAtomMem(v, AtomDef(tab, b.a), atoms, open)
+                          [] kind = "map" -> MapKVAtomMem(v, AtomDef(tab, b.a), atoms, open)
+                          [] OTHER -> SetAtomMem(v, AtomDef(tab, b.a), atoms, open)
        IN EvalBddD(b.m, v, kind, atoms, open) \/ (IF here THEN EvalBddD(b.l, v, kind, atoms, open) ELSE EvalBddD(b.r, v, kind, atoms, open))
 
 DMem(v, st, atoms, open) ==
@@ -49,6 +62,7 @@ DMem(v, st, atoms, open) ==
        CASE tag = "boolean" -> v.b = s.b
          [] tag = "number"  -> (\E j \in DOMAIN s.lits : s.lits[j] = v.n) = s.allowed
          [] tag = "string"  -> (\E j \in DOMAIN s.lits : s.lits[j] = "lit:" \o v.s) = s.allowed
-         [] tag \in {"mapping", "list"} -> EvalBddD(s.bdd, v, tag, atoms, open)
+         [] tag \in {"mapping", "list", "map", "set"} -> EvalBddD(s.bdd, v, tag, atoms, open)
+         [] tag = "typedArray" -> (\E j \in DOMAIN s.lits : s.lits[j] = v.c) = s.allowed
          [] OTHER -> FALSE
 =============================================================================
